@@ -23,6 +23,10 @@ RULE = (
     "one of four breakers; --chromosome_order is a drawn permutation of a subset containing >=1 chain-shaped and (when "
     "available) >=1 non-chain component. Oracle: run(O) returns normally; files(run(O)) == files(run(O minus non-chain)). "
     "Non-trivial = a non-chain component that is requested and is not the last entry of the order. Distinct by SHA-1 of the case."
+    " Later additions: chromosomes of a single segment, requests made only of non-chain components, "
+    "components without any articulation point (normal completion and untouched neighbours required, nothing "
+    "more), a chromosome named 'complete'; requests that cannot be written (component name with a comma) are "
+    "excluded."
 )
 ASSUMPTIONS = [
     "components with no articulation point at all are claimed by neither C06 nor C18 and are not requested",
